@@ -82,6 +82,12 @@ CLAIMED.update({
   note="Known finding (not repaired): table growth is unbounded on partial SipHash collisions (fixed zero key) - two colliding keys make store ask for 2^32 buckets and panic; see known_findings.txt. The step 'after growing, the new key's bucket is empty' is still undecided (bit-level, symbolic new size). count == |vdom| is an inductive consequence of the proved per-operation deltas, assumed where used. calcSipHash is an uninterpreted function of the key. Reply formatting of the hash handlers, HINCRBYFLOAT, HSCAN (see C17) and pickUniqueRandomItems' distinctness are not under contract.",
   design="DESIGN.md section 6 C04"),
 })
+CLAIMED.update({
+ "C05": dict(
+  text="Deductive proof of the set algebra on the real workers over the verified dictionary view (vdom = members): SDIFF's worker returns exactly first \\ (union of the other operands), SUNION's exactly first U (union of the others), SINTER's exactly first /\\ (intersection of the others) - each stated with a ghost accumulated operand set and proved with loop invariants over the iterator position (which members lie in the part of the table already passed), incl. SINTER's collect-then-remove list (ghost witness of each collected name's list position); a missing first key gives the empty set, a missing later key is the empty set (SINTER: empty result); every result is a fresh scratch table and no stored table changes (operands never modified: frame over all non-scratch dictionaries); the STORE forms install exactly that result under the destination and delete the destination when the result is empty; SREM removes the named members and deletes a set it empties; SMOVE moves the member, keeps it when source = destination, replies 1 iff it was in the source, deletes an emptied source; SINTERCARD's worker leaves operands untouched. Only workers named in the contract can be passed as the operation (checked at each call site).",
+  note="Three defects found and repaired (empty STORE result, SREM/SMOVE leaving empty sets, SMOVE onto the same set losing the member). Not under contract: reply ordering/formatting, SRANDMEMBER/SPOP distribution, SSCAN (see C17), SINTERCARD's LIMIT counting, SADD/SISMEMBER/SMISMEMBER replies beyond the dictionary contracts. Shared items between a clone and its origin are harmless for sets (all values are struct{}{}), stated as an assumption.",
+  design="DESIGN.md section 6 C05"),
+})
 NOT_BUILT = {}
 ALL = ["C%02d" % i for i in range(1, 21)]
 
